@@ -33,42 +33,96 @@ fn main() {
 	match argv[0].as_str() {
 		// replay spec-generated vectors (all kinds) from TLC output files
 		"replay" => {
-			let mut rep = Report::new();
-			let mut ost = objv::ObjState::new();
-			let mut macros: Vec<serde_json::Value> = vec![];
-			for path in &args.pos {
-				for_each_record(path, |rec| match rec["k"].as_str() {
-					Some("parse_bytes") => parsev::replay_bytes(&mut rep, &rec),
-					Some("parse") => parsev::replay_parse(&mut rep, &rec),
-					Some("obj") => objv::replay_obj(&mut rep, &mut ost, &rec),
-					Some("nest") => nestv::replay_nest(&mut rep, &rec),
-					Some("macro") => macros.push(rec.clone()),
-					Some("sj") => serdev::replay_sj(&mut rep, &rec),
-					Some("ser") => serdev::replay_ser(&mut rep, &rec),
-					Some("canon") => canonv::replay_canon(&mut rep, &rec),
-					Some("conv") => navv::replay_conv(&mut rep, &rec),
-					Some("wide") => printv::replay_wide(&mut rep, &rec),
-					Some("print") => printv::replay_print(&mut rep, &rec),
-					Some("uneq") => unordv::replay_uneq(&mut rep, &rec),
-					Some("kind_set") => kindv::replay_set(&mut rep, &rec),
-					Some("kind_ops") => kindv::replay_ops(&mut rep, &rec),
-					Some("kind_iter") => kindv::replay_iter(&mut rep, &rec),
-					Some(k) => tool_error(&format!("unknown vector kind {k}")),
-					None => (),
-				});
+			// records are decoded and replayed by a pool of worker threads (each with its own report);
+			// macro vectors are collected and compiled as one batch at the end
+			use std::io::BufRead;
+			use std::sync::{mpsc, Arc, Mutex};
+			let workers = args.num("threads", 12).max(1);
+			let (tx, rx) = mpsc::sync_channel::<Vec<String>>(workers * 4);
+			let rx = Arc::new(Mutex::new(rx));
+			let mut handles = vec![];
+			for _ in 0..workers {
+				let rx = rx.clone();
+				handles.push(std::thread::Builder::new().stack_size(64 << 20).spawn(move || {
+					let mut rep = Report::new();
+					let mut ost = objv::ObjState::new();
+					let mut macros: Vec<serde_json::Value> = vec![];
+					loop {
+						let batch = match rx.lock().unwrap().recv() {
+							Ok(b) => b,
+							Err(_) => break,
+						};
+						for line in batch {
+							let rec = match decode_line(&line) {
+								Some(r) => r,
+								None => continue,
+							};
+							match rec["k"].as_str() {
+								Some("parse_bytes") => parsev::replay_bytes(&mut rep, &rec),
+								Some("parse") => parsev::replay_parse(&mut rep, &rec),
+								Some("obj") => objv::replay_obj(&mut rep, &mut ost, &rec),
+								Some("nest") => nestv::replay_nest(&mut rep, &rec),
+								Some("canon") => canonv::replay_canon(&mut rep, &rec),
+								Some("conv") => navv::replay_conv(&mut rep, &rec),
+								Some("wide") => printv::replay_wide(&mut rep, &rec),
+								Some("print") => printv::replay_print(&mut rep, &rec),
+								Some("macro") => macros.push(rec.clone()),
+								Some("sj") => serdev::replay_sj(&mut rep, &rec),
+								Some("ser") => serdev::replay_ser(&mut rep, &rec),
+								Some("uneq") => unordv::replay_uneq(&mut rep, &rec),
+								Some("kind_set") => kindv::replay_set(&mut rep, &rec),
+								Some("kind_ops") => kindv::replay_ops(&mut rep, &rec),
+								Some("kind_iter") => kindv::replay_iter(&mut rep, &rec),
+								Some(k) => tool_error(&format!("unknown vector kind {k}")),
+								None => (),
+							}
+						}
+					}
+					(rep, macros)
+				}).unwrap());
 			}
+			for path in &args.pos {
+				let file = std::fs::File::open(path).unwrap_or_else(|e| tool_error(&format!("open {path}: {e}")));
+				let reader = std::io::BufReader::with_capacity(1 << 20, file);
+				let mut batch = Vec::with_capacity(1000);
+				for line in reader.lines() {
+					let line = line.unwrap_or_else(|e| tool_error(&format!("read {path}: {e}")));
+					if line.starts_with("\"{") || line.starts_with('{') {
+						batch.push(line);
+						if batch.len() >= 1000 {
+							tx.send(std::mem::replace(&mut batch, Vec::with_capacity(1000))).unwrap();
+						}
+					}
+				}
+				if !batch.is_empty() {
+					tx.send(batch).unwrap();
+				}
+			}
+			drop(tx);
+			let mut rep = Report::new();
+			let mut macros = vec![];
+			for h in handles {
+				match h.join() {
+					Ok((r, m)) => {
+						rep.merge(r);
+						macros.extend(m);
+					}
+					Err(_) => tool_error("a replay worker died (uncaught panic in the harness)"),
+				}
+			}
+			macros.sort_by_key(|m| m.to_string());
 			macrov::run_batch(&mut rep, &macros);
 			if args.get("value-kinds").is_some() {
 				kindv::check_value_kinds(&mut rep);
 			}
 			rep.finish(args.get("out"));
 		}
-		"record-obj" => objv::record(&args),
 		"nest-child" => nestv::child(),
 		"sweep" => sweepv::record(&args),
 		"record-canon" => canonv::record(&args),
 		"record-serde" => serderec::record(&args),
 		"record-parse" => parsev::record(&args),
+		"record-obj" => objv::record(&args),
 		"record-order" => orderv::record(&args),
 		"record-print" => printv::record(&args),
 		"record-unordered" => unordv::record(&args),
